@@ -415,6 +415,39 @@ func genC14(tier string) []Scenario {
 		}
 		out = append(out, Scenario{Name: fmt.Sprintf("store-raw depth=%d first=%s", depth, raw[first]), Body: body, Check: stdCheck(func() string { return last })})
 	}
+	// the same sequences observed SPARSELY: once after a chosen step and once at the end.  State
+	// that an observer itself leaves behind (a memo filled by Keys / a typed getter) is only
+	// stale if nothing looks in between, which observing after every step never lets happen.
+	sdepth := 4
+	if tier == "thorough" {
+		sdepth = 5
+	}
+	for first := range raw {
+		first := first
+		var last string
+		body := func() {
+			s := newStoreSys()
+			var names []string
+			obsAt := core.Choose(sdepth - 1)
+			for d := 0; d < sdepth; d++ {
+				i := first
+				if d > 0 {
+					i = core.Choose(len(raw))
+				}
+				s.apply(raw[i])
+				names = append(names, raw[i].String())
+				if d == obsAt || d == sdepth-1 {
+					names = append(names, "<observe>")
+					s.observe(raw[i].String())
+				}
+			}
+			last = s.key()
+			for _, p := range s.prob {
+				core.Problem("%s: %s", strings.Join(names, " "), p)
+			}
+		}
+		out = append(out, Scenario{Name: fmt.Sprintf("store-raw-sparsely-observed depth=%d first=%s", sdepth, raw[first]), Body: body, Check: stdCheck(func() string { return last })})
+	}
 	// sizes around internal thresholds: fill K keys, snapshot, delete them one by one, merge a
 	// big map (and an alias of a snapshot) into the EMPTY store, mutate the caller's map afterwards
 	ks := []int{1, 2, 7, 8, 9, 31, 32, 33, 63, 64, 65, 66, 100, 129, 130}
